@@ -54,6 +54,17 @@ theorem C04_partial_write_closes (acts : List SendAct) (pkts : List SrvPkt) (sch
     (run C04.full (init acts pkts) sched).closed = true :=
   (inv_run C04.full rfl sched _ (inv_init acts pkts)).wrote h
 
+/-- **The call returns**: in every reachable state in which some goroutine has failed or the caller
+has cancelled (the shared context is dead), a bounded number of further steps — the sender's
+remaining actions, two steps of the receive loop (it notices the dead context at its next read
+timeout), one of the cancel-watch — makes all three goroutines return, so `g.Wait()` returns. -/
+theorem C04_returns_after_failure (acts : List SendAct) (pkts : List SrvPkt) (sched : List Tid)
+    (hc : (run C04.full (init acts pkts) sched).ctxDead = true) (n : Nat)
+    (hn : senderLen (run C04.full (init acts pkts) sched) ≤ n) :
+    (run C04.full (init acts pkts) (sched ++ drain n)).allDone = true := by
+  rw [run_append]
+  exact returns_after_failure C04.full _ (left_run C04.full sched _ (left_init acts pkts)) hc n hn
+
 /-! ### what the earlier designs allowed (each flag off, a concrete run) -/
 
 /-- relying on the cancel-watch alone: it can check the group context before the failing receiver
